@@ -1017,7 +1017,17 @@ func GenPullProgram(t *rapid.T, authHeavy bool) *Program {
 			b, _ := json.Marshal(cur)
 			var ns SysSpec
 			_ = json.Unmarshal(b, &ns)
-			switch rapid.IntRange(0, 3).Draw(t, "rk") {
+			switch rapid.IntRange(0, 5).Draw(t, "rk") {
+			case 4, 5:
+				// admin tokens appear, rotate or go away by reload
+				switch {
+				case len(ns.AdminTokens) == 0:
+					ns.AdminTokens = []string{"admin-tok-added"}
+				case rapid.Bool().Draw(t, "rk.admin"):
+					ns.AdminTokens = []string{"admin-tok-rotated"}
+				default:
+					ns.AdminTokens = nil
+				}
 			case 3:
 				ns.PullTokens = nil // legal only if every route has tokens of its own
 			case 0:
